@@ -236,9 +236,13 @@ fn c16_raw() -> Vec<(String, String)> {
         for i in 0..k {
             body.push_str(&format!("#[regex(\"{}[0-9A-Z_{}]+\")] L{i}, ", prefixes[i], ranges[i]));
         }
-        body.push_str("#[regex(\"[a-o]+[0-9A-Z_]\")] W, #[regex(\"[p-z]+[0-9A-Z_]?\")] V");
+        // (with and without a further loop that leaves through the core class itself - that one
+        // registers the core class as a column of its own)
+        let with_v = format!("{body}#[regex(\"[a-o]+[0-9A-Z_]\")] W, #[regex(\"[p-z]+[0-9A-Z_]?\")] V");
+        body.push_str("#[regex(\"[a-z]+[0-9A-Z_]\")] W");
         add(&format!("raw_lut_cols{k}"), &format!("enum T {{ {body} }}"));
         add(&format!("raw_lut_cols{k}b"), &format!("#[logos(utf8 = false)] enum T {{ {body} }}"));
+        add(&format!("raw_lut_cols{k}v"), &format!("enum T {{ {with_v} }}"));
     }
     // EXACT REPEATS of an item next to distinct ones (anything that folds repeats through a hash
     // container loses the written order): repeated skips, repeated attributes on one variant and on
